@@ -130,6 +130,12 @@ theorem source_length_is_x690 (indefOk : Bool) (n : Nat) :
 theorem source_length_indefinite (n : Nat) : GenK.encodeLength true (n : Int) false = .ok [128] := by
   rw [Kernels.encodeLength_kernel]; rfl
 
+/-- INTEGER / ENUMERATED contents: `to_bytes(value, signed=True)` of pyasn1/compat/integer.py, as it is in the
+    source, writes the two's complement of every integer in the fewest octets (X.690 8.3) -/
+theorem source_integer_is_x690 (z : Int) :
+    GenK.toBytes z true 0 = .ok (Kernels.bytesInts (X690.intOctets z)) := by
+  rw [Kernels.toBytes_kernel, integer_is_x690]
+
 /-- OBJECT IDENTIFIER contents written by the source = X.690 8.19, with the same refusals -/
 theorem source_oid_is_x690 (arcs : List Nat) :
     GenK.oidEncode (Kernels.ints arcs) = Kernels.liftOid (X690.oidOctets arcs) := by
@@ -138,6 +144,7 @@ theorem source_oid_is_x690 (arcs : List Nat) :
 /-- non-vacuity: [APPLICATION 16384] constructed; length 300; OID 2.999.3 -/
 example : GenK.encodeTag [64, 0, 16384] true = .ok [127, 129, 128, 0] := by rfl
 example : GenK.encodeLength false 300 true = .ok [130, 1, 44] := by rfl
+example : GenK.toBytes (-129) true 0 = .ok [255, 127] := by rfl
 example : GenK.oidEncode [2, 999, 3] = .ok ([136, 55, 3], false, false) := by rfl
 
 /-- on a record: the encoder's octets, and hence (by the theorem) those of the transcription -/
